@@ -52,9 +52,6 @@ structure Cfg where
   ignored : Str → Bool          -- go-pathspec verdict for a path (oracle)
   lstrip : List Str
   followDirs : Bool
-  /-- recorded finding (KNOWN_FINDINGS.json): the implementation does not strip the prefix from
-      the key of a file symlink; `false` is the behaviour the property describes -/
-  noStripSymlink : Bool := false
 
 /-- first matching strip prefix is removed -/
 def stripPath (lstrip : List Str) (p : Str) : Str :=
@@ -64,10 +61,12 @@ def stripPath (lstrip : List Str) (p : Str) : Str :=
 
 abbrev ArtMap := List (Str × List (Str × Str))
 
-def amSet (m : ArtMap) (k : Str) (v : List (Str × Str)) : ArtMap :=
-  match m with
-  | [] => [(k, v)]
-  | (k', v') :: rest => if k' = k then (k, v) :: rest else (k', v') :: amSet rest k v
+/-- the entries found below a followed directory symlink are added one by one; a name that is
+    already taken is an error, as for regular files (repair of finding F19) -/
+def mergeUnique : ArtMap → ArtMap → Outcome ArtMap
+  | acc, [] => .ok acc
+  | acc, (k, v) :: rest =>
+    if (lookup k acc).isSome then .err "not-unique" else mergeUnique (acc ++ [(k, v)]) rest
 
 mutual
   /-- the walk function applied to one path -/
@@ -87,13 +86,17 @@ mutual
           -- recursive recordArtifacts on the target: a regular file, recorded under the LINK's own path
           match hashObj d cfg.algs with
           | none => .err "unsupported-hash"
-          | some h => .ok (amSet acc (if cfg.noStripSymlink then path else stripPath cfg.lstrip path) h)
+          | some h =>
+            -- ... with the prefix stripped from the LINK's path and the same uniqueness check as for
+            -- regular files (repair of finding F19)
+            let p := stripPath cfg.lstrip path
+            if (lookup p acc).isSome then .err "not-unique" else .ok (acc ++ [(p, h)])
         | .symDir ch =>
           if !cfg.followDirs then .ok acc
           else
             -- recursive recordArtifacts on the target directory; keys re-rooted at the link's path
             match visitChildren cfg fuel path (sortChildren ch) [] with
-            | .ok sub => .ok (sub.foldl (fun a e => amSet a e.1 e.2) acc)
+            | .ok sub => mergeUnique acc sub
             | e => e
         | .file d =>
           match hashObj d cfg.algs with
